@@ -85,7 +85,21 @@ var (
 		Reason:  wamp.ErrSystemShutdown,
 		Details: wamp.Dict{},
 	}
+	// abortedGoodbye ends a session that the broker or dealer has aborted for
+	// a protocol violation. The ABORT message was already sent to the peer.
+	abortedGoodbye = &wamp.Goodbye{ //nolint:gochecknoglobals
+		Reason:  wamp.ErrProtocolViolation,
+		Details: wamp.Dict{},
+	}
 )
+
+// abortSession tells the message handler of an aborted session to exit and
+// remove the session from the realm. The handler closes the peer; closing the
+// peer from the broker or dealer would close it a second time when the
+// handler exits, and would leave the session subscribed and registered.
+func abortSession(sess *wamp.Session) {
+	sess.EndRecv(abortedGoodbye)
+}
 
 // newRealm creates a new realm with the given RealmConfig, broker and dealer.
 func newRealm(config *RealmConfig, broker *broker, dealer *dealer, logger stdlog.StdLog, debug bool) (*realm, error) {
@@ -454,6 +468,9 @@ func (r *realm) handleInboundMessages(sess *wamp.Session) (bool, bool, error) {
 				default:
 				}
 				return true, false, nil
+			case abortedGoodbye:
+				// ABORT already sent by broker or dealer.
+				return false, false, nil
 			}
 			if r.debug {
 				r.log.Printf("Kill session %s: %s", sess, goodbye.Reason)
